@@ -40,11 +40,27 @@ Definition ls_list_core (ja2 jb2 jc2 : Z) (pbrk : bool) (dl : Z) (ca : option Z)
 Definition ls_list (ja2 jb2 jc2 : Z) (pa pb pc : option Z) (p_break : bool) (ca : option Z) :=
   ls_list_core ja2 jb2 jc2 (eff_break pa pb pc p_break) (eff_dl pa pb pc) ca.
 
-(* user restrictions, tf_pwa/amp/core.py:1212 get_ls_list: l_list keeps the pairs whose l is
-   listed; an explicit ls_list option REPLACES the enumeration (it is returned as given). *)
+(* user restrictions, tf_pwa/amp/core.py get_ls_list (after /repo 47acb11): the ls_list option RESTRICTS the enumeration -
+   its entries are kept in the user's order, each one once (dict.fromkeys keeps first occurrences), and only if the
+   enumeration allows them; l_list then keeps the pairs whose l is listed (also together with ls_list).
+   Before 47acb11 an explicit ls_list REPLACED the enumeration (returned as given, forbidden and repeated entries
+   included, l_list ignored): user_ls_old. *)
 Definition restrict_l (ls : list (Z * Z)) (allowed : list Z) : list (Z * Z) :=
   filter (fun p => existsb (Z.eqb (fst p)) allowed) ls.
+Definition pair_eqb (p q : Z * Z) : bool := (fst p =? fst q) && (snd p =? snd q).
+Definition pair_mem (p : Z * Z) (l : list (Z * Z)) : bool := existsb (pair_eqb p) l.
+Fixpoint dedup_first (l : list (Z * Z)) : list (Z * Z) :=
+  match l with
+  | [] => []
+  | p :: r => p :: filter (fun q => negb (pair_eqb p q)) (dedup_first r)
+  end.
 Definition user_ls (enumerated : list (Z * Z)) (l_list : option (list Z)) (ls_opt : option (list (Z * Z))) :=
+  let base := match ls_opt with
+              | Some u => filter (fun p => pair_mem p enumerated) (dedup_first u)
+              | None => enumerated
+              end in
+  match l_list with Some a => restrict_l base a | None => base end.
+Definition user_ls_old (enumerated : list (Z * Z)) (l_list : option (list Z)) (ls_opt : option (list (Z * Z))) :=
   match ls_opt with
   | Some u => u
   | None => match l_list with Some a => restrict_l enumerated a | None => enumerated end
